@@ -46,6 +46,9 @@ PROPS = {
     "C03": cluster(["C03"], ["grant", "campaign", "win", "claim"], ["vote"]),
     "C04": cluster(["C04"], ["commitleader", "commitapp", "commithb", "commitclaim", "commitsnap", "ackcommitted", "sendhb", "claim"], ["commit"]),
     "C05": cluster(["C05"], ["lappend", "sendapp", "recvapp", "installsnap", "bootstrap"], ["log"]),
+    "C09": cluster(["C09"], ["bootstrap"], []),
+    "C13": cluster(["C13"], ["sendapp", "sendhb"], []),
+    "C20": cluster(["C20"], [], []),
     "C15": cluster(["C15"], ["sendsnap", "installsnap", "commitsnap", "bootstrap"], []),
     "C06": cluster(["C06"], ["bump", "rdy", "persist", "release", "crash", "restart", "sendapp", "sendhb", "sendsnap"], ["term", "up", "dterm", "dvote", "dlog", "dcommit"]),
     "C11": {
@@ -151,6 +154,25 @@ PROPS = {
             "documented preconditions for the theorems: append batches are contiguous and start within [first_index, last_index+1]; compact_index <= last_index (compact_index <= applied); commit_to an existing entry; for snapshot(): the stored commit index is the snapshot point or a stored entry (kept by set_hardstate within range, compact <= commit, appends not cutting the log below commit)",
             "recorded quirks outside the preconditions (model mirrors the code, Lean examples in RaftProps/C19.lean): compact(last_index+1) drains the log and first/last fall back to the old snapshot point (F5); entries(first,first) panics on an empty log; after compact, term(first_index-1) is Compacted although the trait documents it as available",
             "get_entries_context bookkeeping of MemStorageCore is not modelled (not observable through the Storage trait)",
+        ],
+    },
+    "C07": {
+        "gens": {
+            "quick": [
+                {"name": "random 6000x120 (every 10th sequence also violates the contract)", "args": ["rawnode", "--seed", "{seed}", "--cases", "6000", "--len", "120"]},
+            ],
+            "thorough": [
+                {"name": "random 40000x120 stream 0", "args": ["rawnode", "--seed", "{seed}", "--cases", "40000", "--len", "120"]},
+                {"name": "random 10000x300 stream 1", "args": ["rawnode", "--seed", "{seed}7", "--cases", "10000", "--len", "300"]},
+            ],
+        },
+        "rule": "free-running call histories on a real raft::RawNode<MemStorage> (node 1 of a 1-, 2- or 3-voter group whose other members are simulated by hand-crafted incoming messages, pre_vote on/off, restarted from arbitrary initial storages: snapshot point + entries + hard state + Config.applied): MsgAppend incl. truncating appends from a new leader, heartbeats carrying a commit index, MsgSnapshot, vote requests/responses, campaign, tick, propose, read_index, acknowledgements that advance the leader's commit index, runtime set_max_apply_unpersisted_log_limit in {0,1,2,3,1000,u64::MAX} on leaders and followers, max_committed_size_per_ready in {0,1,20,60,150,u64::MAX}; ready() followed by the storage write and advance / advance_append / advance_append_async (50 %), on_persist_ready(n) for a random issued n (any batching), delayed advance_apply_to(k) / advance_apply, storage compaction, crash + RawNode::new with Config.applied; every tenth sequence additionally breaks the contract (missing storage write, on_persist_ready beyond max_number, advance_apply_to beyond the handed-out index, responses before their requests are persisted). After every call the full Ready/LightReady (number, ss, hs, read states, entries, snapshot, committed entries, messages, persisted messages, must_sync), has_ready(), the RaftLog cursors, unstable part, storage range and stored hard state, and the private bookkeeping (max_number, commit_since_index, unpersisted_hs_number, prev_hs, prev_ss, records; through the cfg-gated read-only hook raft::verif::rawnode::view) are compared with the Lean model, which runs freely on the RawNode layer: what Raft::step & co. did to term/vote/role/message queue/log between RawNode calls, and what the three Raft callbacks did beyond the RaftLog cursor update (commit advance, new messages, auto-leave append), is read off the real node and fed to the model as the explicit raft-effect input of that line; a case is one (observation before, call) pair, distinct = distinct pairs",
+        "trusted_base": LEAN_TB,
+        "assumptions": [
+            "of Raft only what RawNode reads/writes is modelled (RaftLog = model of C14 over the MemStorage model of C19, term, vote, role, leader id, message queue as opaque payloads, read states as opaque values); Raft::step/tick/propose are environment steps whose effect on that state is an input constrained by the C14 RaftLog contract; the callbacks on_persist_entries / on_persist_snap / commit_apply update the RaftLog cursors exactly as raft.rs does and take the commit advance, new messages and auto-leave append as an explicit effect input",
+            "the application follows the documented contract: no step/tick/propose between ready() and advance*; the storage write of a Ready (snapshot, entries, hard state) happens before advance*; on_persist_ready(n) only for issued numbers; advance_apply_to(k) only for k <= last handed-out index; vote responses only arrive after the persisted messages carrying the request were released",
+            "apply-before-persist on a non-leader: set_max_apply_unpersisted_log_limit(>0) may be called on a follower (the API allows it; become_follower resets it); then a snapshot followed by committed appends before the next ready() makes ready() panic at raw_node.rs:537 (model and code agree; the no-panic theorem assumes limit = 0 on non-leaders; Lean example C07_follower_limit_panics)",
+            "reduce_uncommitted_size (flow control, C13) is not modelled; conf-change entries / auto-leave are modelled (Effect.appended) but not driven by the generator",
         ],
     },
 }
